@@ -84,16 +84,16 @@ type runner struct {
 	shadow *consistenthash.ConsistentHash
 
 	// oracle bookkeeping, from the implementation's observations only
-	failsSince []int
-	streak     []int
-	lastOk     []int64
-	everOk     []bool
-	lastProbe  []int64
-	everProbe  []bool
-	lastGrant  []int64
-	everGrant  []bool
-	grants     []int
-	probes     []int
+	failsSince  []int
+	streak      []int
+	lastOk      []int64
+	everOk      []bool
+	lastProbe   []int64
+	everProbe   []bool
+	lastGrant   []int64
+	everGrant   []bool
+	grants      []int
+	probes      []int
 	blockedByUs []bool // oracle's view: taken out and not yet reinstated
 }
 
